@@ -336,6 +336,7 @@ type genOpts struct {
 	lcDistinct  int // number of distinct values for LowCardinality rows (0 = default small)
 	bigStrings  bool
 	emptyArrays bool // every array / map row is empty
+	uniform     bool // fixed-width integer rows are uniformly random bytes (incompressible)
 }
 
 var strLens = []int{0, 0, 1, 1, 2, 3, 7, 16, 127, 128, 129, 255, 256}
@@ -451,6 +452,10 @@ func genCol(r *Rng, t *TNode, rows int, o genOpts) *CNode {
 	case "fixed", "uuid", "str", "json", "enum":
 		c.Rows = make([][]byte, rows)
 		for i := range c.Rows {
+			if o.uniform && t.Kind == "fixed" && (t.Leaf == "uint" || t.Leaf == "int") {
+				c.Rows[i] = r.Bytes(t.W)
+				continue
+			}
 			c.Rows[i] = genLeafRow(r, t, o)
 		}
 	case "bool":
